@@ -214,6 +214,10 @@ def gen_cases(tier, seed, purpose="c01"):
                                   ops=rp.ops_used))
     if purpose == "c01":
         cases += bits8_cases(tier, seed, k)
+    elif purpose == "c02":
+        # three-view on the bit-level protocols (B2A's extra key exchange, A2B's resharing); thorough configurations
+        # are cheap here (1-10 s each); the known-finding configuration is C01's
+        cases += [c for c in bits8_cases("thorough", seed, k) if "key" not in c]
     return cases
 
 
